@@ -1,229 +1,24 @@
 /-
 Line-protocol driver for the executable models (lean_exe `tonmodel`).
 One request per line:  <op> <arg> <arg> ...      (hex for bytes, 0/1 strings for bits)
-One response per line: ok <canonical result>   |   err
+One response per line: ok <canonical result>   |   err   |   bad-op
+Each model area contributes `TonVerif.Drv.<Area>.handle?`; add new areas to `handlers`.
 -/
-import TonVerif.Basic
-import TonVerif.Model.Crc
-import TonVerif.Model.Cell
-import TonVerif.Spec.Cell
-import TonVerif.Model.Builder
-import TonVerif.Sha256
+import TonVerif.Drv.Common
+import TonVerif.Drv.Crc
+import TonVerif.Drv.Cell
+import TonVerif.Drv.Builder
 
-open TonVerif TonVerif.Model
+open TonVerif TonVerif.Drv
 
-def hexArg (s : String) : Option Bytes := if s == "-" then some [] else bytesOfHex? s
-
-def optHex : Option Bytes → String
-  | some bs => "ok " ++ (if bs.isEmpty then "-" else hexOfBytes bs)
-  | none => "err"
-
-def sha := Sha256.sha256
-
-def dashHex (bs : Bytes) : String := if bs.isEmpty then "-" else hexOfBytes bs
-
-def parseBits (s : String) : Option Bits := if s == "-" then some [] else bitsOfString? s
-
-def parseNatList (s : String) (sep : String := ".") : Option (List Nat) :=
-  if s == "-" then some [] else (s.splitOn sep).mapM String.toNat?
-
-/-- node syntax: `kind,bits,refs` e.g. `-1,0101,0.2` ; `-` for empty bits / no refs -/
-def parseNode (s : String) : Option (Int × Bits × List Nat) :=
-  match s.splitOn "," with
-  | [k, b, r] => do
-    let kind ← k.toInt?
-    let bits ← parseBits b
-    let refs ← parseNatList r
-    pure (kind, bits, refs)
-  | _ => none
-
-/-- evaluate a DAG given child-before-parent; each node once. -/
-def evalDag (nodes : List (Int × Bits × List Nat)) : Array (Option CellInfo) :=
-  nodes.foldl (fun acc (kind, bits, refs) =>
-    let kids : Option (List CellInfo) := refs.mapM (fun i => (acc[i]?).join)
-    acc.push (kids.bind (fun ks => construct sha kind bits ks))) #[]
-
-def showInfo (i : CellInfo) (kids : List CellInfo) : String :=
-  let hs := (List.range 4).map (fun l => match i.getHash l with | some h => dashHex h | none => "x")
-  let ds := (List.range 4).map (fun l => match i.getDepth l with | some d => toString d | none => "x")
-  let rep := match representation i kids with | some r => hexOfBytes (sha r) | none => "x"
-  s!"{i.mask}:{".".intercalate hs}:{".".intercalate ds}:{hexOfBytes i.hash}:{rep}:{i.pyHash}"
-
-def handleDag (arg : String) : String :=
-  match (arg.splitOn "|").mapM parseNode with
-  | none => "bad-op"
-  | some nodes =>
-    let infos := evalDag nodes
-    let outs := (List.range nodes.length).map (fun k =>
-      match infos[k]?, nodes[k]? with
-      | some (some i), some (_, _, refs) =>
-        let kids := refs.filterMap (fun j => (infos[j]?).join)
-        showInfo i kids
-      | _, _ => "err")
-    "ok " ++ "|".intercalate outs
-
-def specKind (k : Int) : Option Spec.Kind :=
-  if k = -1 then some .ordinary else if k = 1 then some .pruned else if k = 2 then some .library
-  else if k = 3 then some .merkleProof else if k = 4 then some .merkleUpdate else none
-
-/-- the SPEC (Spec/Cell.lean) evaluated on a DAG: `mask:h0.h1.h2.h3:d0.d1.d2.d3` per node -/
-def handleSpecDag (arg : String) : String :=
-  match (arg.splitOn "|").mapM parseNode with
-  | none => "bad-op"
-  | some nodes =>
-    let infos : Array (Option Spec.SInfo) := nodes.foldl (fun acc (kind, bits, refs) =>
-      let kids : Option (List Spec.SInfo) := refs.mapM (fun i => (acc[i]?).join)
-      acc.push (do let ks ← kids; let k ← specKind kind; pure (Spec.node sha k bits ks))) #[]
-    let outs := infos.toList.map (fun o => match o with
-      | some s =>
-        let hs := (List.range 4).map (fun l => dashHex (s.hashAt l))
-        let ds := (List.range 4).map (fun l => toString (s.depthAt l))
-        s!"{s.mask}:{".".intercalate hs}:{".".intercalate ds}"
-      | none => "err")
-    "ok " ++ "|".intercalate outs
-
-/-! ### builder / slice scripts -/
-
-/-- evaluated cell value used as reference type `R` of the builder/slice model -/
-inductive RCell where
-  | mk (info : CellInfo) (bits : Bits) (refs : List RCell)
-
-def RCell.info : RCell → CellInfo | .mk i _ _ => i
-def RCell.bits : RCell → Bits | .mk _ b _ => b
-def RCell.refs : RCell → List RCell | .mk _ _ r => r
-def RCell.hashHex (c : RCell) : String := hexOfBytes c.info.hash
-
-/-- `Builder.end_cell` for ordinary cells -/
-def mkCell (bits : Bits) (refs : List RCell) : Option RCell :=
-  (construct sha (-1) bits (refs.map RCell.info)).map (fun i => RCell.mk i bits refs)
-
-def evalRDag (nodes : List (Int × Bits × List Nat)) : Array (Option RCell) :=
-  nodes.foldl (fun acc (kind, bits, refs) =>
-    let kids : Option (List RCell) := refs.mapM (fun i => (acc[i]?).join)
-    acc.push (kids.bind (fun ks => (construct sha kind bits (ks.map RCell.info)).map (fun i => RCell.mk i bits ks)))) #[]
-
-def showBits (b : Bits) : String := if b.isEmpty then "-" else stringOfBits b
-def showRefs (rs : List RCell) : String := if rs.isEmpty then "-" else ".".intercalate (rs.map RCell.hashHex)
-
-def parseAddr : List String → Option Addr
-  | ["n"] => some Addr.none
-  | ["e", l, v] => do pure (Addr.ext (← l.toNat?) (← v.toInt?))
-  | ["s", wc, h] => do pure (Addr.std none (← wc.toInt?) (← hexArg h))
-  | ["s", wc, h, d, p] => do pure (Addr.std (some (← d.toNat?, ← p.toInt?)) (← wc.toInt?) (← hexArg h))
-  | _ => none
-
-def showAddr : Addr → String
-  | .none => "n"
-  | .ext l v => s!"e:{l}:{v}"
-  | .std none wc h => s!"s:{wc}:{dashHex h}"
-  | .std (some (d, p)) wc h => s!"s:{wc}:{dashHex h}:{d}:{p}"
-
-def bop (ctx : Array (Option RCell)) (tok : String) : Option (BOp RCell) :=
-  let node (s : String) : Option RCell := s.toNat?.bind (fun i => (ctx[i]?).join)
-  match tok.splitOn ":" with
-  | ["u", v, n] => do pure (BOp.storeUint (← v.toInt?) (← n.toNat?))
-  | ["i", v, n] => do pure (BOp.storeInt (← v.toInt?) (← n.toNat?))
-  | ["vu", v, k] => do pure (BOp.storeVarUint (← v.toInt?) (← k.toNat?))
-  | ["vi", v, k] => do pure (BOp.storeVarInt (← v.toInt?) (← k.toNat?))
-  | ["c", v] => do pure (BOp.storeCoins (← v.toInt?))
-  | ["b", bs] => do pure (BOp.storeBits (← parseBits bs))
-  | ["by", h] => do pure (BOp.storeBytes (← hexArg h))
-  | ["bit", b] => some (BOp.storeBit (b == "1"))
-  | ["r", n] => do pure (BOp.storeRef (← node n))
-  | ["mr", n] => if n == "-" then some (BOp.storeMaybeRef none) else do pure (BOp.storeMaybeRef (some (← node n)))
-  | ["cell", n] => do let c ← node n; pure (BOp.storeCell c.bits c.refs)
-  | ["sl", n, sb, sr] => do
-      let c ← node n
-      pure (BOp.storeSlice (c.bits.drop (← sb.toNat?)) (c.refs.drop (← sr.toNat?)))
-  | "a" :: rest => do pure (BOp.storeAddress (← parseAddr rest))
-  | ["sn", h] => do pure (BOp.storeSnake mkCell (← hexArg h))
-  | _ => none
-
-/-- `bscript <dag|-> <ops;...>` → `ok <flags> <bits> <refs> <endcell hash|err>` -/
-def handleBScript (dag ops : String) : String :=
-  let nodes? := if dag == "-" then some [] else (dag.splitOn "|").mapM parseNode
-  match nodes? with
-  | none => "bad-op"
-  | some nodes =>
-    let ctx := evalRDag nodes
-    let toks := if ops == "-" then [] else ops.splitOn ";"
-    match toks.mapM (bop ctx) with
-    | none => "bad-op"
-    | some fs =>
-      let (b, flags) := fs.foldl (fun (acc : Builder RCell × String) f =>
-        let r := f acc.1
-        (r.1, acc.2 ++ (if r.2 then "1" else "0"))) (Builder.empty, "")
-      let fin := match mkCell b.bits b.refs with | some c => c.hashHex | none => "err"
-      s!"ok {if flags.isEmpty then "-" else flags} {showBits b.bits} {showRefs b.refs} {fin}"
-
-def sop (tok : String) (s : Slice RCell) : Option (Slice RCell × String) :=
-  let fin {α} (r : Slice RCell × Option α) (f : α → String) : Option (Slice RCell × String) :=
-    some (r.1, match r.2 with | some a => f a | none => "x")
-  let showInt (i : Int) : String := toString i
-  let showOptRef (o : Option RCell) : String := match o with | some c => c.hashHex | none => "none"
-  match tok.splitOn ":" with
-  | ["lu", n] => do fin (SOp.loadUint (← n.toNat?) s) showInt
-  | ["li", n] => do fin (SOp.loadInt (← n.toNat?) s) showInt
-  | ["pu", n] => do fin (SOp.preloadUint (← n.toNat?) s) showInt
-  | ["pi", n] => do fin (SOp.preloadInt (← n.toNat?) s) showInt
-  | ["lb", n] => do fin (SOp.loadBits (← n.toNat?) s) showBits
-  | ["pb", n] => do fin (SOp.peekBits (← n.toNat?) s) showBits
-  | ["lby", n] => do fin (SOp.loadBytes (← n.toNat?) s) dashHex
-  | ["pby", n] => do fin (SOp.preloadBytes (← n.toNat?) s) dashHex
-  | ["bit"] => fin (SOp.loadBit s) (fun b => if b then "1" else "0")
-  | ["pbit"] => fin (SOp.preloadBit s) (fun b => if b then "1" else "0")
-  | ["sk", n] => do fin (SOp.skipBits (← n.toNat?) s) (fun _ => "ok")
-  | ["lr"] => fin (SOp.loadRef s) RCell.hashHex
-  | ["pr"] => fin (SOp.preloadRef s) RCell.hashHex
-  | ["lmr"] => fin (SOp.loadMaybeRef s) showOptRef
-  | ["pmr"] => fin (SOp.preloadMaybeRef s) showOptRef
-  | ["lvu", k] => do fin (SOp.loadVarUint (← k.toNat?) s) showInt
-  | ["pvu", k] => do fin (SOp.preloadVarUint (← k.toNat?) s) showInt
-  | ["lvi", k] => do fin (SOp.loadVarInt (← k.toNat?) s) showInt
-  | ["pvi", k] => do fin (SOp.preloadVarInt (← k.toNat?) s) showInt
-  | ["lc"] => fin (SOp.loadCoins s) showInt
-  | ["pc"] => fin (SOp.preloadCoins s) showInt
-  | ["la"] => fin (SOp.loadAddress s) showAddr
-  | ["pa"] => fin (SOp.preloadAddress s) showAddr
-  | ["lall"] => fin (SOp.loadAllBytes s) dashHex
-  | ["lsn"] => fin (SOp.loadSnakeFuel (fun c => (c.bits, c.refs)) 2000 s) dashHex
-  | _ => none
-
-/-- `sscript <dag> <node> <ops;...>` → `ok <r1>;<r2>;... <remaining bits> <remaining refs>` -/
-def handleSScript (dag node ops : String) : String :=
-  match (dag.splitOn "|").mapM parseNode, node.toNat? with
-  | some nodes, some ni =>
-    match ((evalRDag nodes)[ni]?).join with
-    | none => "err"
-    | some c =>
-      let toks := if ops == "-" then [] else ops.splitOn ";"
-      let rec go (ts : List String) (s : Slice RCell) (acc : List String) : Option (Slice RCell × List String) :=
-        match ts with
-        | [] => some (s, acc.reverse)
-        | t :: rest => match sop t s with
-          | none => none
-          | some (s', r) => go rest s' (r :: acc)
-      match go toks ⟨c.bits, c.refs⟩ [] with
-      | none => "bad-op"
-      | some (s, rs) => s!"ok {if rs.isEmpty then "-" else ";".intercalate rs} {showBits s.bits} {showRefs s.refs}"
-  | _, _ => "bad-op"
+def handlers : List (String → List String → Option String) := [
+  Crc.handle?,
+  Cell.handle?,
+  Builder.handle?
+]
 
 def handle (op : String) (args : List String) : String :=
-  match op, args with
-  | "crc16", [d] => match hexArg d with
-      | some bs => optHex (Model.crc16 bs)
-      | none => "bad-op"
-  | "crc32c", [d, big] => match hexArg d with
-      | some bs => optHex (Model.crc32c bs (big == "1"))
-      | none => "bad-op"
-  | "sha256", [d] => match hexArg d with
-      | some bs => "ok " ++ hexOfBytes (sha bs)
-      | none => "bad-op"
-  | "celldag", [d] => handleDag d
-  | "specdag", [d] => handleSpecDag d
-  | "bscript", [dag, ops] => handleBScript dag ops
-  | "sscript", [dag, node, ops] => handleSScript dag node ops
-  | _, _ => "bad-op"
+  (handlers.findSome? (fun h => h op args)).getD "bad-op"
 
 partial def loop (h : IO.FS.Stream) (out : IO.FS.Stream) : IO Unit := do
   let line ← h.getLine
